@@ -120,6 +120,7 @@ pub struct WorldC {
     pub(crate) bulk_addrs: Vec<String>,
     pub(crate) expect_ballots: Vec<(usize, u64, String, String)>,
     pub(crate) queue: std::collections::VecDeque<Step>,
+    pub(crate) races_done: u32,
 }
 
 pub fn wasm_exec(contract: &str, msg: &Value, funds: Vec<Coin>) -> Value {
@@ -710,6 +711,74 @@ impl WorldC {
         Some(jump)
     }
 
+    /// F1 for governance: the group is re-weighted and a proposal opened in the same block, then members vote one
+    /// after another in a fixed pattern (settling the proposal early and voting on after it has settled).
+    /// The group reports "start of block" for the proposal's height, so ballots and total may disagree (the
+    /// known C06 deviation) — what is examined here is everything downstream of that state.
+    fn gen_reweight_race(&mut self, rng: &mut Rng) -> Option<Step> {
+        if self.is_stake || self.races_done >= 2 {
+            return None;
+        }
+        let m = self.msigs.iter().find(|m| m.flex)?.clone();
+        let admin = self.last_group_obs.as_ref().and_then(|o| o.admin.clone())?;
+        if self.chain.label_of(&admin).is_some() || self.users.len() < 3 {
+            return None;
+        }
+        self.races_done += 1;
+        let n = (3 + rng.below(2) as usize).min(self.users.len());
+        let who: Vec<String> = self.users.iter().take(n).cloned().collect();
+        let tx = |sender: &str, target: &str, msg: Value, funds: Vec<(String, String)>| Step::Tx {
+            sender: sender.to_string(),
+            target: target.to_string(),
+            msg,
+            funds,
+            fault: None,
+            script: vec![],
+        };
+        let heavy: Vec<u64> = who.iter().map(|_| rng.range(2, 8)).collect();
+        let light: Vec<u64> = who.iter().map(|_| *rng.pick(&[1u64, 1, 1, 2])).collect();
+        let (first, second) = if rng.chance(3, 4) { (heavy, light) } else { (light, heavy) };
+        let members = |ws: &[u64]| -> Vec<Value> { who.iter().zip(ws).map(|(a, w)| json!({"addr": a, "weight": w})).collect() };
+        let mut seq: Vec<Step> = vec![];
+        seq.push(tx(&admin, "group", json!({"update_members":{"add": members(&first), "remove": []}}), vec![]));
+        seq.push(Step::Block { dh: 1, dt: self.cfg.spb, dn: 0 });
+        seq.push(tx(&admin, "group", json!({"update_members":{"add": members(&second), "remove": []}}), vec![]));
+        let payload = self.gen_payload(rng, &m);
+        let mut funds: Vec<(String, String)> = vec![];
+        if let Some(d) = &m.deposit {
+            if let cw20::Denom::Native(dn) = &d.denom {
+                funds = vec![(dn.clone(), d.amount.u128().to_string())];
+            }
+        }
+        let id = m.max_id + 1;
+        seq.push(tx(&who[0], &m.label, json!({"propose":{"title": format!("race{}", self.step_idx), "description":"d", "msgs": payload, "latest": Value::Null}}), funds));
+        if rng.chance(3, 4) {
+            seq.push(Step::Block { dh: 1, dt: self.cfg.spb, dn: 0 });
+        }
+        let pattern: &[&str] = *rng.pick(&[
+            &["no", "yes", "yes"][..],
+            &["yes", "no", "no"][..],
+            &["no", "no", "yes"][..],
+            &["yes", "veto", "no"][..],
+            &["abstain", "no", "yes"][..],
+        ]);
+        for (k, v) in pattern.iter().enumerate() {
+            if k + 1 < who.len() {
+                seq.push(tx(&who[k + 1], &m.label, json!({"vote":{"proposal_id": id, "vote": v}}), vec![]));
+            }
+        }
+        if rng.chance(1, 2) {
+            seq.push(tx(&who[0], &m.label, json!({"execute":{"proposal_id": id}}), vec![]));
+        }
+        self.meter.hit("reweight_and_propose_in_one_block");
+        let mut it = seq.into_iter();
+        let head = it.next()?;
+        for s in it {
+            self.queue.push_back(s);
+        }
+        Some(head)
+    }
+
     fn gen_block(&mut self, rng: &mut Rng) -> Step {
         let b = self.chain.block();
         if rng.chance(1, 2) && (!self.deadlines_h.is_empty() || !self.deadlines_t.is_empty()) {
@@ -1093,6 +1162,7 @@ impl World for WorldC {
             bulk_addrs,
             expect_ballots: vec![],
             queue: Default::default(),
+            races_done: 0,
         };
         if !w.group_ok {
             w.meter.hit("group_instantiate_rejected");
@@ -1239,6 +1309,11 @@ impl World for WorldC {
         }
         if rng.chance(1, 10) {
             if let Some(s) = self.gen_boundary_sequence(rng) {
+                return s;
+            }
+        }
+        if rng.chance(1, 16) {
+            if let Some(s) = self.gen_reweight_race(rng) {
                 return s;
             }
         }
